@@ -13,6 +13,20 @@ NA = {
 PENDING = "check not built yet (planned, DESIGN.md section 6)"
 
 CHECKS = {
+    "C17": dict(
+        category="proof",
+        text="Deductive exception-freedom and functional contracts on the attribute validation layer "
+             "(generate.VerifyAttrs.check_intent_attr, check_deref_attr, check_common_attrs, check_arg_attrs in three "
+             "shapes, check_var_attrs, parse_attrs, check_implied_attrs): raises only RuntimeError for every attribute "
+             "value the parser or YAML can produce (None/bool/int/str/float), plus the documented defaulting and range "
+             "rules as postconditions; callers are checked against callee contracts. Six genuine defects found this way "
+             "were repaired with fix: commits. Parser/YAML-structure units are covered by a bounded monitor only.",
+        design_ref="6/C17, A.8",
+        note="Trusted: pyvc, z3/cvc5, PyVal value model, trusted contracts for declast.check_dimension and "
+             "generate.check_implied, 'the parser sets Declaration.typemap'. Not covered (bounded only): token-level "
+             "parser units, trailing/unbalanced text, YAML structure validation.",
+        technique="contract-based deductive verification (AST-generated VCs, z3+cvc5)",
+    ),
     "C12": dict(
         category="proof",
         text="Deductive: VCs from the real text of util._create_splicer (precedence force > user splicer > default, marker "
